@@ -679,8 +679,8 @@ func TestOutage(t *testing.T) {
 // measured on a tag list another goroutine was writing to at the same time under-charges the bucket.
 type AllocCase struct {
 	Binary  bool `json:"binary"`
-	NTags   int  `json:"ntags"`   // 0..8: the shared tag set
-	Pairs   int  `json:"pairs"`   // goroutine pairs (one value, one duration histogram each)
+	NTags   int  `json:"ntags"` // 0..8: the shared tag set
+	Pairs   int  `json:"pairs"` // goroutine pairs (one value, one duration histogram each)
 	Slack   int  `json:"slack"`
 	PerHist int  `json:"perhist"` // samples per bucket
 }
